@@ -73,7 +73,11 @@ class ExprMixin:
             return base.functions[name]
         return None
 
+    EXT_CONSTS = {"re.IGNORECASE": 2, "re.UNICODE": 32, "re.I": 2, "re.U": 32, "sys.maxsize": 2 ** 63 - 1}
+
     def global_val(self, q):
+        if q in self.EXT_CONSTS:
+            return mk_int(self.EXT_CONSTS[q])
         if q.startswith("pyvc.specrt."):
             name = q.split(".")[-1]
             if name == "EPOCH":
@@ -130,7 +134,7 @@ class ExprMixin:
         return Val(FN, ("lambda", e, st.env, st.frame))
 
     def ev_IfExp(self, e, st):
-        c = self.truth(self.eval(e.test, st), st)
+        c = z3.simplify(self.truth(self.eval(e.test, st), st))
         if z3.is_true(c):
             return self.eval(e.body, st)
         if z3.is_false(c):
@@ -425,6 +429,9 @@ class ExprMixin:
         return z3.BoolVal(False)
 
     def under_construction(self, obj, st):
+        cd = CLASSDEFS.get(obj.ty.args[0]) if obj.ty.name == "Obj" else None
+        if cd and cd.get("partial"):
+            return True          # keys of a partial record may be absent: presence flags are always consulted
         return any(obj.t.eq(r) for r in st.ghost.get("__constructing__", ()))
 
     def _inner(self, v):
@@ -533,7 +540,7 @@ class ExprMixin:
                 return mk_int(a.t.as_long() ** b.t.as_long())
         if isinstance(op, ast.BitOr):
             if ta == INT and tb == INT:
-                return Val(INT, fresh("bitor", I), bitor=(a, b))
+                return Val(INT, z3.BV2Int(z3.Int2BV(a.t, 16) | z3.Int2BV(b.t, 16)))
         raise Unsupported(f"binop {type(op).__name__} on {ta}, {tb}")
 
     def py_mod(self, a, b):
@@ -603,6 +610,8 @@ class ExprMixin:
         if ty == FN:
             d = v.t
             if d[0] == "ext":
+                if d[1] + "." + attr in self.EXT_CONSTS:
+                    return mk_int(self.EXT_CONSTS[d[1] + "." + attr])
                 return self.global_val(d[1] + "." + attr) if self.world.split_qual(d[1])[0] is not None \
                     else Val(FN, ("ext", d[1] + "." + attr))
             if d[0] == "class":
